@@ -81,6 +81,7 @@ def gen_base(rng, tier, index):
         else:
             n = rng.randint(0, 14)
         call = {"ordered": rng.random() < 0.7, "n": n, "chunk": chunk, "form": rng.choice(["list", "list", "gen", "slow", "deque", "intseq", "array_like"]), "list_items": rng.random() < 0.25,
+                "item_size": 70_000 if (rng.random() < 0.15 and n <= 8) else 0,
                 "salt": rng.randrange(1000)}
         if call["form"] == "slow":
             call["slow"] = {"before": {}, "stop": rng.choice([0, 0.03, 0.1])}
